@@ -426,7 +426,7 @@ theorem index_complete_always (s0 : State) (ops : List Op) (inv : StoreInv s0) {
 
 These two statements are NOT part of property C07 (whose quantifier has no genesis operation);
 they belong to C18 (genesis round trip); see `observations/C07.md` and
-`observations/C18-quarantine-genesis-merge.patch`.  The C07 check evaluates no verdict on `regenesis`
+the repair b5c01b2ec in /repo (these statements are about the PRE-FIX import, `regenesisPreFix`).  The C07 check evaluates no verdict on `regenesisPreFix`
 lines (the op is in the stream as a correspondence op only). -/
 
 /-- (belongs to C18; see observations/) **Export/import keeps every quarantined coin on record — partial.**
@@ -437,9 +437,9 @@ whenever no multi-sender record is partially accepted). -/
 theorem regenesis_preserves_partial_observation {s s' : State} (inv : StoreInv s) (order : List GenFunds → List GenFunds)
     (hperm : ∀ l, (order l).Perm l)
     (hdistinct : ((exportGenesis s).map fun g => (g.to, createRecordSuffix g.unacc)).Nodup)
-    (h : regenesis s order = .ok s') : ∀ d, outstanding s' d = outstanding s d := by
+    (h : regenesisPreFix s order = .ok s') : ∀ d, outstanding s' d = outstanding s d := by
   intro d
-  unfold regenesis at h
+  unfold regenesisPreFix regenesisWith at h
   simp only at h
   split at h
   · injection h with h
@@ -533,9 +533,9 @@ and importing genesis leaves 2aaa or 3aaa on record out of 5aaa (depending on wh
 entries is imported last), while the holder still has all 5aaa: the rest can never be accepted. -/
 theorem _root_.PvProofs.C07.regenesis_can_lose_funds_observation :
     outstanding (run s0 ops) "aaa" = 5 ∧
-    (∀ s', regenesis (run s0 ops) id = .ok s' → outstanding s' "aaa" = 2 ∧ Ledger.bal s'.bank "H" "aaa" = 5) ∧
-    (∀ s', regenesis (run s0 ops) List.reverse = .ok s' → outstanding s' "aaa" = 3 ∧ Ledger.bal s'.bank "H" "aaa" = 5) ∧
-    (regenesis (run s0 ops) id).toBool = true := by
+    (∀ s', regenesisPreFix (run s0 ops) id = .ok s' → outstanding s' "aaa" = 2 ∧ Ledger.bal s'.bank "H" "aaa" = 5) ∧
+    (∀ s', regenesisPreFix (run s0 ops) List.reverse = .ok s' → outstanding s' "aaa" = 3 ∧ Ledger.bal s'.bank "H" "aaa" = 5) ∧
+    (regenesisPreFix (run s0 ops) id).toBool = true := by
   refine ⟨by decide, ?_, ?_, by decide⟩
   · intro s' h
     rw [regenesis_ok_eq h]
@@ -546,7 +546,7 @@ theorem _root_.PvProofs.C07.regenesis_can_lose_funds_observation :
 
 -- hypotheses of `regenesis_preserves_partial_observation`: before C accepts A nothing is partially accepted
 example : ((exportGenesis s4).map fun g => (g.to, createRecordSuffix g.unacc)).Nodup := by decide
-example : (regenesis s4 id).toBool = true := by decide
+example : (regenesisPreFix s4 id).toBool = true := by decide
 
 end Demo
 
